@@ -456,6 +456,23 @@ fn directed(t: &mut Trace) {
     let sb = s.sbal(0);
     s.vault_op(t, "redeem", sb, [0, 0, 0], &[0], true);
 
+    // 2b. offset 10, the share supply within 10^offset of i128::MAX: supply + 10^offset does not fit, every
+    // conversion (views, previews, deposit / mint / withdraw / redeem) must be refused, none may answer with a
+    // capped effective supply (seed C05-r11-2)
+    t.seq("directed share supply next to i128::MAX offset=10 min_temp=1 start=100");
+    let mut s = Sim::new(1, 100);
+    s.construct(t, 10);
+    let a: i128 = 17_014_118_346_046_923_173_168_730_371; // a * 10^10 <= i128::MAX < (a + 1) * 10^10
+    s.token_op(t, "a_mint", a, &[0], 0, &[]);
+    s.token_op(t, "a_mint", 1000, &[1], 0, &[]);
+    s.vault_op(t, "deposit", a, [0, 0, 0], &[0], true);
+    s.vault_op(t, "redeem", 10_000_000_000, [0, 0, 0], &[0], true);
+    s.vault_op(t, "withdraw", 1, [0, 0, 0], &[0], true);
+    s.vault_op(t, "deposit", 1000, [1, 1, 1], &[1], true);
+    s.vault_op(t, "mint", 1, [1, 1, 1], &[1], true);
+    let sb = s.sbal(0);
+    s.vault_op(t, "redeem", sb, [0, 0, 0], &[0], true);
+
     // 3. operator != owner / from: share allowance, asset allowance, expiry, auth shapes
     t.seq("directed operator allowance offset=3 min_temp=16 start=100");
     let mut s = Sim::new(16, 100);
